@@ -229,6 +229,9 @@ func oracleCase(t *testing.T, lines [][]string) string {
 		primVals := func() map[string]string {
 			m := map[string]string{}
 			for k, o := range c.d.prim {
+				if c.single1 && k == singletonInput.ResourceName() {
+					continue // the constant input of a singleton is not in the primary static collection
+				}
 				m[k] = o.Token()
 			}
 			return m
